@@ -56,7 +56,12 @@ def checkCall (sc : Sc) (cl : Clip) (idx : Nat) (call : String × List Nat × Li
           let itag := if fsc == (Model.Pairwise.fill sc cl' x.toArray y.toArray).score then "fill-model=imp-model"
             else "drift-fill-imp"
           let htag := if Model.PairwiseFill.thmHyp sc cl' x y then "fill-thm-hyp" else "outside-fill-thm-hyp"
-          .ok ([mtag, ftag, itag, htag] ++ (if !x.isEmpty && !y.isEmpty && !core.isEmpty then ["nt"] else [])
+          -- the functional model's whole `Alignment` (its traceback over its own traceback cells, `Lx`, `Ly`)
+          let ptag := match (Model.PairwiseFill.custom sc cl' x y).map
+              (fun r => if filt then Model.Pairwise.filterClips r else r) with
+            | some r => if r == o then "fill-path=impl" else "drift-fill-path"
+            | none => "drift-fill-no-termination"
+          .ok ([mtag, ftag, itag, htag, ptag] ++ (if !x.isEmpty && !y.isEmpty && !core.isEmpty then ["nt"] else [])
             ++ [mode]
             ++ (if x.isEmpty || y.isEmpty then ["emptyseq"] else [])
             ++ (if hasClip o.ops then ["clipops"] else [])
